@@ -59,6 +59,12 @@ def _const_eval(node, env):
         return env[node.id]
     if isinstance(node, ast.UnaryOp) and isinstance(node.op, ast.USub):
         return -_const_eval(node.operand, env)
+    if isinstance(node, ast.UnaryOp) and isinstance(node.op, ast.UAdd):
+        return _const_eval(node.operand, env)
+    if isinstance(node, ast.UnaryOp) and isinstance(node.op, ast.Invert):
+        v = _const_eval(node.operand, env)
+        if isinstance(v, int):
+            return ~v
     if isinstance(node, ast.BinOp):
         a, b = _const_eval(node.left, env), _const_eval(node.right, env)
         if isinstance(node.op, ast.Add):
@@ -67,10 +73,23 @@ def _const_eval(node, env):
             return a - b
         if isinstance(node.op, ast.Mult):
             return a * b
-        if isinstance(node.op, ast.Pow):
+        if isinstance(node.op, ast.Pow) and (isinstance(b, float) or 0 <= b <= 4096):
             return a**b
-        if isinstance(node.op, ast.LShift):
-            return a << b
+        if isinstance(a, int) and isinstance(b, int):
+            if isinstance(node.op, ast.LShift) and 0 <= b <= 4096:
+                return a << b
+            if isinstance(node.op, ast.RShift) and b >= 0:
+                return a >> b
+            if isinstance(node.op, ast.BitOr):
+                return a | b
+            if isinstance(node.op, ast.BitAnd):
+                return a & b
+            if isinstance(node.op, ast.BitXor):
+                return a ^ b
+            if isinstance(node.op, ast.FloorDiv) and b != 0:
+                return a // b
+            if isinstance(node.op, ast.Mod) and b != 0:
+                return a % b
     raise ExtractError(f"not a constant expression: {ast.dump(node)[:80]}")
 
 
@@ -457,6 +476,19 @@ def _fnv_loop(fn, var=None):
             if len(steps) == 3 and len({st.target.id for st in steps}) == 1 and [type(st.op) for st in steps] == [ast.BitXor, ast.Mult, ast.BitAnd]:
                 if var is None or steps[0].target.id == var:
                     return steps[0].target.id, steps[1].value, steps[2].value
+            # `h ^= unit; h = (h * PRIME) & MASK` — multiply and mask fused into one statement
+            body = [st for st in node.body if isinstance(st, (ast.AugAssign, ast.Assign))]
+            if len(body) == 2 and isinstance(body[0], ast.AugAssign) and isinstance(body[0].op, ast.BitXor) and isinstance(body[0].target, ast.Name):
+                v = body[0].target.id
+                st = body[1]
+                if isinstance(st, ast.Assign) and len(st.targets) == 1 and isinstance(st.targets[0], ast.Name) and st.targets[0].id == v and (var is None or v == var):
+                    e = st.value
+                    if isinstance(e, ast.BinOp) and isinstance(e.op, ast.BitAnd):
+                        for prod, mask in ((e.left, e.right), (e.right, e.left)):
+                            if isinstance(prod, ast.BinOp) and isinstance(prod.op, ast.Mult):
+                                for x, y in ((prod.left, prod.right), (prod.right, prod.left)):
+                                    if isinstance(x, ast.Name) and x.id == v:
+                                        return v, y, mask
     return None
 
 
